@@ -289,7 +289,7 @@ pub(crate) struct YaccParser<'a> {
 static RE_NAME: LazyLock<Regex> =
     LazyLock::new(|| Regex::new(r"^[a-zA-Z_.][a-zA-Z0-9_.]*").unwrap());
 static RE_TOKEN: LazyLock<Regex> =
-    LazyLock::new(|| Regex::new("^(?:(\".+?\")|('.+?')|([a-zA-Z_][a-zA-Z_0-9]*))").unwrap());
+    LazyLock::new(|| Regex::new("^(?:(\".+?\")|('.+?')|([a-zA-Z_.][a-zA-Z_0-9.]*))").unwrap());
 
 fn add_duplicate_occurrence(
     errs: &mut Vec<YaccGrammarError>,
@@ -2822,5 +2822,21 @@ Factor: ')' Expr ')';
         assert_eq!(grm.prods[0].symbols.len(), 1);
         assert!(grm.has_token("a"));
         assert!(!grm.has_token("b"));
+    }
+
+    #[test]
+    fn test_reference_to_dotted_rule_name() {
+        // RE_NAME lets a rule be called `a.b`, so a reference to it has to be readable too.
+        let src = "%%\nS: a.b 'x' | .c; a.b: 'y'; .c: ;";
+        let grm = parse(
+            YaccKind::Original(YaccOriginalActionKind::GenericParseTree),
+            src,
+        )
+        .unwrap();
+        assert_eq!(
+            grm.prods[0].symbols,
+            vec![rule_span("a.b", Span::new(6, 9)), token_span("x", Span::new(11, 12))]
+        );
+        assert_eq!(grm.prods[1].symbols, vec![rule_span(".c", Span::new(16, 18))]);
     }
 }
